@@ -160,6 +160,42 @@ def known_sig(t, l, clause):
             if d.get('waitBefore', 0) > 0 and not x['isJoin'] and x['sid'] in kid0 and kid0[x['sid']] < born[x['sid']] + d['waitBefore']:
                 viol.append(d)
         out['early_tasks_all_have_pause_before'] = bool(viol) and all(d.get('pauseBefore') for d in viol)
+    if clause in ('NoHang', 'NoStuckTaskAtRest', 'NoWaitingAtRest', 'Prescribed') and rearmed:
+        # a join that was re-armed (set back to WAITING after it had started / finished) is what is left unfinished at rest
+        arm = set()
+        for s in t['steps'][:l]:
+            for wr in s['ev'].get('writes', []):
+                if wr['kind'] == 'tk' and wr['to'] == 'WAITING' and wr['frm'] in ('RUNNING', 'SUCCESS', 'ERROR', 'DELAYED'):
+                    arm.add(wr['sid'])
+        o = t['steps'][l - 1]['obs']
+        unfinished = [x['sid'] for x in o['tk'] if x['state'] in ('RUNNING', 'WAITING', 'IDLE', 'DELAYED')]
+        out['unfinished_tasks_are_rearmed_joins'] = bool(unfinished) and all(u in arm for u in unfinished)
+    if clause == 'PauseBeforeRespected':
+        # which pause-before tasks started an action / sub-workflow without a PAUSED period followed by a resume ?
+        born, first_kid = {}, {}
+        for k, st in enumerate(t['steps'][:l]):
+            for x in st['obs']['tk']:
+                born.setdefault(x['sid'], k)
+            for a in st['obs']['ax']:
+                first_kid.setdefault(a['task'], k)
+            for w in st['obs']['wf']:
+                if w.get('parent'):
+                    first_kid.setdefault(w['parent'], k)
+        viol = []
+        for x in t['steps'][l - 1]['obs']['tk']:
+            d = t['prog']['tasks'].get(x['name'], {})
+            if not d.get('pauseBefore') or x['isJoin'] or x['sid'] not in first_kid:
+                continue
+            b0, f0 = born[x['sid']], first_kid[x['sid']]
+            ok = False
+            for kp in range(b0, f0):
+                wst = [w['state'] for w in t['steps'][kp]['obs']['wf'] if w['sid'] == x['wf']]
+                if wst and wst[0] == 'PAUSED' and any(t['steps'][kr]['ev']['kind'] == 'op' and t['steps'][kr]['ev']['what'] == 'resume'
+                                                        for kr in range(kp + 1, f0 + 1)):
+                    ok = True
+            if not ok:
+                viol.append(d)
+        out['unresumed_starts_all_have_timeout_and_retry'] = bool(viol) and all(d.get('timeout', 0) > 0 and d.get('retry', 0) > 0 for d in viol)
     if clause == 'StopAck' and l >= 2:
         prev = {w['sid']: w['state'] for w in t['steps'][l - 2]['obs']['wf']}
         out['stop_state'] = ev.get('arg', '')
@@ -261,7 +297,7 @@ def model_jobs(d, tier, sims=(), probes=()):
     return jobs, info
 
 
-def run_property(pid, tier, jobs, nontrivial_rule, nontrivial_fn, model_runs=None, extra=None, strict=False, prescribed=False, model_behaviours=None):
+def run_property(pid, tier, jobs, nontrivial_rule, nontrivial_fn, model_runs=None, extra=None, strict=False, prescribed=False, model_behaviours=None, post=None):
     t0 = time.time()
     verdict = common.Verdict(pid)
     d = common.builddir(pid.lower(), clean=True)
@@ -351,6 +387,7 @@ def run_property(pid, tier, jobs, nontrivial_rule, nontrivial_fn, model_runs=Non
                                            % (t['meta'].get('label'), t['meta']['policy'], t['meta']['seed'], k, len(t['steps']),
                                               nxt.get('kind'), nxt.get('what'), ('/' + nxt.get('phase')) if nxt.get('phase') else ''))
             strict_info.update({'traces_in_model_scope': len(scope), 'traces_accepted_strict': len(acc), 'divergences': ndiv})
+    post_info = post(d, traces, verdict) if post else {}
     nontrivial = set()
     for t in traces:
         k = nontrivial_fn(t)
@@ -381,6 +418,8 @@ def run_property(pid, tier, jobs, nontrivial_rule, nontrivial_fn, model_runs=Non
     cov.update(strict_info)
     if mb_info:
         cov['model_behaviours'] = mb_info
+    if post_info:
+        cov.update(post_info)
     if extra:
         cov.update(extra)
     common.write_evidence(pid, tier, 'model_checking', cov, time.time() - t0, len(verdict.violations), LEVEL_ASSUME)
